@@ -30,6 +30,23 @@ ASSUMPTIONS = ["mido's writer/reader is assumed to carry (type, delta, fields) u
 SCRATCH = None
 
 
+def cross_channel_overlap(rels):
+    """D21: some saved sequence holds two notes of equal pitch on different channels whose intervals overlap or touch
+    (at a shared tick the saved order is by channel first, so the later note's on can precede the earlier note's off)"""
+    for r in rels:
+        tr, _ = rel_timed(r)
+        ns = notes_of(tr)
+        for i, (c1, p1, on1, off1, _) in enumerate(ns):
+            for (c2, p2, on2, off2, _) in ns[i + 1:]:
+                if p1 == p2 and c1 != c2 and on1 <= off2 and on2 <= off1:
+                    return True
+    return False
+
+
+D21_EXAMPLE = {"rels": [[pm(ON, 0, None, note=60, vel=64), pm(WAIT, 1, 12), pm(ON, 1, None, note=60, vel=80), pm(WAIT, 0, 12),
+                         pm(OFF, 0, None, note=60), pm(WAIT, 1, 12), pm(OFF, 1, None, note=60)]]}
+
+
 def o_save_load(inp):
     from scoda.sequences.sequence import Sequence
     import tempfile
@@ -88,15 +105,20 @@ def setup(ctx):
     SCRATCH = ctx.scratch
     ctx.oracle("save_load", o_save_load)
 
+    def kf_d21(f):
+        return f["clause"] == "notes" and cross_channel_overlap([[tuple(m) for m in r] for r in f["input"]["rels"]])
+    ctx.kf_predicates["D21"] = kf_d21
+
 
 def generate(ctx):
     rng = ctx.rng
+    ctx.check("save_load", D21_EXAMPLE)         # the recorded instance of the known finding
     for i in range(ctx.n(120, 2500)):
         k = rng.choice([1, 2, 3])
         rels = []
         used = set()
         for j in range(k):
-            notes = G.gen_notes(rng, n_notes=rng.randint(0, 6), channels=(0,), max_tick=150, max_dur=50)
+            notes = G.gen_notes(rng, n_notes=rng.randint(0, 6), channels=(0,) if rng.random() < 0.75 else (0, 1, 2), max_tick=150, max_dur=50)
             extras = []
             for _ in range(rng.choice([0, 1, 2])):
                 t = rng.choice([0, 0, 24, 96, rng.randint(0, 150)])
